@@ -259,15 +259,28 @@ pub async fn start_server_in(
     data_dir: PathBuf,
     tweak: impl FnOnce(&mut Config),
 ) -> Result<ServerHandle, String> {
+    let mut config = base_config().await;
+    config.persistence_mode = PersistenceMode::Json;
+    start_server_cfg(name, data_dir, config, tweak).await
+}
+
+/// start an instance from a prepared `Config` (endpoints and data dir are still filled in here)
+pub async fn start_server_cfg(
+    name: &str,
+    data_dir: PathBuf,
+    mut config: Config,
+    tweak: impl FnOnce(&mut Config),
+) -> Result<ServerHandle, String> {
     std::fs::create_dir_all(&data_dir).map_err(|e| e.to_string())?;
     let node = ctx::add_node(name, data_dir.clone());
     let unix_path = data_dir.join(format!("{name}.{node}.sock"));
-    let mut config = base_config().await;
+    config.ws_endpoint = None;
+    config.tcp_disabled = true;
+    config.print_endpoints = false;
     config.unix_endpoint = Some(UnixEndpoint {
         path: unix_path.clone(),
     });
     config.data_dir = data_dir.to_string_lossy().into_owned();
-    config.persistence_mode = PersistenceMode::Json;
     tweak(&mut config);
     let (api_tx, api_rx) = oneshot::channel();
     let (sd_tx, sd_rx) = oneshot::channel::<()>();
